@@ -32,7 +32,7 @@ macro_rules! stats_struct {
 }
 stats_struct!(
     bodies, applies, deliveries, postponed, max_postponed_one_target, nested_replay, skipped_dead, skipped_dead_postponed, optional_taken, optional_skipped, polled_events, polled_in_tree, polled_reactions, payloads, payload_zero_listeners, payload_abort_release, doomed_insts, once_fired, once_retrigger_after_fire, revokes_applied, revoke_mid_dispatch, kills, kill_self, err_returns, excl_bodies, registrations, reg_dead_entity, slot_respawn, max_depth, roots, multi_kind_same_tree, sibling_reorder, frames, guaranteed_gc, guaranteed_poll, a1_ambiguous, ewr_bodies, ewr_nodata_ok, inserts_dead_at_apply, setifneq_equal, setifneq_diff, removal_reinsert_removal, sig_zero, entity_recursive_despawn, fifo_pairs_checked, sys_calls, reactors_per_key_ge7,
-    probes, ev_total, replayed, sys_recursive, acc_ops, single_acc, app_setup_again, bulk_collected, max_bulk, ewr_readd, res_removed, res_trigger_while_absent, excl_flushed_in_body, sig_zero_during_gc, sig_moved_into_entity, collected_observed, sig_zero_in_tree, payload_owned_signal_released
+    probes, ev_total, replayed, sys_recursive, acc_ops, single_acc, app_setup_again, bulk_collected, max_bulk, ewr_readd, res_removed, res_trigger_while_absent, excl_flushed_in_body, sig_zero_during_gc, sig_moved_into_entity, collected_observed, sig_zero_in_tree, payload_owned_signal_released, sys_cleared
 );
 
 #[derive(Clone, Debug)]
@@ -1654,7 +1654,7 @@ impl<'a> Checker<'a>
                 let cur = if self.ents[e].alive { self.ents[e].comp[c.idx()] } else { None };
                 match cur
                 {
-                    Some(old) if old != *v => { self.stats.setifneq_diff += 1; self.ents[e].comp[c.idx()] = Some(*v); self.set_ret(u, Some(old), "set_if_neq")?; Issued::MutTrigger(e, *c) }
+                    Some(old) if !crate::harness::veq(old, *v) => { self.stats.setifneq_diff += 1; self.ents[e].comp[c.idx()] = Some(*v); self.set_ret(u, Some(old), "set_if_neq")?; Issued::MutTrigger(e, *c) }
                     Some(_) => { self.stats.setifneq_equal += 1; self.set_ret(u, None, "set_if_neq")?; Issued::Nop }
                     None => { self.set_ret(u, None, "set_if_neq")?; Issued::Nop }
                 }
@@ -1681,7 +1681,7 @@ impl<'a> Checker<'a>
             {
                 if excl { return Ok(Issued::Nop); }
                 let old = self.res[r.idx()];
-                if old != *v { self.stats.setifneq_diff += 1; self.res[r.idx()] = *v; self.set_ret(u, Some(old), "resource set_if_neq")?; Issued::ResTrigger(*r) }
+                if !crate::harness::veq(old, *v) { self.stats.setifneq_diff += 1; self.res[r.idx()] = *v; self.set_ret(u, Some(old), "resource set_if_neq")?; Issued::ResTrigger(*r) }
                 else { self.stats.setifneq_equal += 1; self.set_ret(u, None, "resource set_if_neq")?; Issued::Nop }
             }
             Op::ResNoreact(r, v) => { if excl { return Ok(Issued::Nop); } self.res[r.idx()] = *v; Issued::Nop }
@@ -2087,7 +2087,7 @@ impl<'a> Checker<'a>
                 self.sig_harness[k] = 1;
             }
             WOp::SigClone(k) => { let k = *k as usize; if self.sig_harness[k] > 0 { self.sigs[k].1 += 1; self.sig_harness[k] += 1; } }
-            WOp::SigDrop(k) =>
+            WOp::SigDrop(k) | WOp::SigDropUnwind(k) =>
             {
                 let k = *k as usize;
                 if self.sig_harness[k] > 0 { self.sig_harness[k] -= 1; self.sig_release(k); }
@@ -2102,6 +2102,7 @@ impl<'a> Checker<'a>
             WOp::Syscall(kind, key, input) => self.sys_call(*kind, *key, *input, false, u)?,
             WOp::SpawnSys(k, key) => { let k = *k as usize % 4; if self.sys.spawned[k].is_none() { self.sys.spawned[k] = Some((*key % crate::sysfam::NKEYS, true)); } }
             WOp::KillSys(k) => { if let Some(s) = self.sys.spawned[*k as usize % 4].as_mut() { s.1 = false; } }
+            WOp::ClearSys(k) => { let k = *k as usize % 4; if self.sys.on_ent[k].is_none() { if let Some(s) = self.sys.spawned[k].as_mut() { s.1 = false; self.stats.sys_cleared += 1; } } }
             WOp::RevokeNamed(n, key) =>
             {
                 let state = crate::sysfam::state_id(SysKind::Named(*n), *key % crate::sysfam::NKEYS, false);
@@ -2196,7 +2197,7 @@ impl<'a> Checker<'a>
         let cur = if self.ents[e].alive { self.ents[e].comp[c.idx()] } else { None };
         if single
         {
-            let want_old = match kind { AccKind::SingleSetIfNeq => cur.filter(|o| *o != v), _ => cur };
+            let want_old = match kind { AccKind::SingleSetIfNeq => cur.filter(|o| !crate::harness::veq(*o, v)), _ => cur };
             match self.peek()?.cloned()
             {
                 Some(Ev::Single { uid, e: bits, old }) if uid == u =>
@@ -2216,9 +2217,9 @@ impl<'a> Checker<'a>
             }
             AccKind::QSetIfNeq | AccKind::SingleSetIfNeq =>
             {
-                let changes = matches!(cur, Some(o) if o != v);
+                let changes = matches!(cur, Some(o) if !crate::harness::veq(o, v));
                 if changes { self.stats.setifneq_diff += 1; } else { self.stats.setifneq_equal += 1; }
-                if kind == AccKind::QSetIfNeq { self.set_ret(u, cur.filter(|o| *o != v), "React::set_if_neq")?; }
+                if kind == AccKind::QSetIfNeq { self.set_ret(u, cur.filter(|o| !crate::harness::veq(*o, v)), "React::set_if_neq")?; }
                 if changes { self.ents[e].comp[c.idx()] = Some(v); self.do_mutation_trigger(e, c)?; }
             }
             AccKind::QNoreact | AccKind::SingleNoreact => { if cur.is_some() { self.ents[e].comp[c.idx()] = Some(v); } }
@@ -2300,7 +2301,7 @@ impl<'a> Checker<'a>
             {
                 return Err(Stop::Bail(Bail("bulk signals are not collected before other work (not generated)".into())));
             }
-            if !self.sys.doomed.is_empty() && !matches!(step, Step::Direct(WOp::Gc) | Step::Direct(WOp::SigClone(_)) | Step::Direct(WOp::SigDrop(_)) | Step::Direct(WOp::SigPrepare(..)) | Step::Direct(WOp::SigMoveInto(..)) | Step::Direct(WOp::Reparent(..)) | Step::Direct(WOp::SigBulk(..)) | Step::Update | Step::AppSetup)
+            if !self.sys.doomed.is_empty() && !matches!(step, Step::Direct(WOp::Gc) | Step::Direct(WOp::SigClone(_)) | Step::Direct(WOp::SigDrop(_)) | Step::Direct(WOp::SigDropUnwind(_)) | Step::Direct(WOp::SigPrepare(..)) | Step::Direct(WOp::SigMoveInto(..)) | Step::Direct(WOp::Reparent(..)) | Step::Direct(WOp::SigBulk(..)) | Step::Update | Step::AppSetup)
             {
                 return Err(Stop::Bail(Bail("a ref-counted spawned system whose signal was dropped is not collected before other work (placement of in-tree collections is unspecified)".into())));
             }
